@@ -15,6 +15,7 @@ mkdir -p $out
 git -C $wt diff -- . ':!*_test.go' > $out/patch.diff
 cp $wt/$pkg/zz_seeded_demo_test.go $out/demo_test.go 2>/dev/null || { echo "no demo test in $wt/$pkg"; }
 log=$out/confirm.log; : > $log
+mkdir -p /tmp/wt
 sw=/tmp/wt/confirm_$id
 git -C /repo worktree add -q --detach $sw HEAD
 ( cd $sw && git apply $out/patch.diff && go build ./... && go test -vet=off -count=1 ./... ) >> $log 2>&1; suite=$?
